@@ -137,6 +137,13 @@ def mk_not(t):
     return T("not", t)
 
 
+def _split_call(t):
+    """t = xs.split_last() / xs.split_first()  ->  (method, xs)"""
+    if isinstance(t, tuple) and t and t[0] == "call" and len(t) > 2 and len(t[2]) == 1 and method_name(t[1]) in ("split_last", "split_first") and "slice" in t[1]:
+        return method_name(t[1]), strip(t[2][0])
+    return None
+
+
 def _bool_const(t):
     if isinstance(t, tuple) and t and t[0] == "const" and isinstance(t[1], tuple) and t[1][0] == "int" and len(t[1]) > 2 and t[1][2] == "bool":
         return bool(t[1][1])
@@ -719,6 +726,15 @@ class Evaluator:
                 # ((next it) as Some).0 -> elem
                 if inner and inner[0] == "next" and t[2] == "Some" and idx == 0:
                     return T("elem", inner[1], inner[2])
+                sp = _split_call(inner)
+                if sp is not None and t[2] == "Some" and idx == 0:
+                    # xs.split_last() = Some((&xs[len-1], &xs[0..len-1]));  xs.split_first() = Some((&xs[0], &xs[1..]))
+                    xs = sp[1]
+                    one = T("const", T("int", 1, "usize"))
+                    if sp[0] == "split_last":
+                        end = T("binop", "Sub", T("len", xs), one)
+                        return T("tuple", (T("index", xs, end), T("index", xs, T("agg", "std::ops::Range", "Range", (T("const", T("int", 0, "usize")), end), ("start", "end")))))
+                    return T("tuple", (T("index", xs, T("const", T("int", 0, "usize"))), T("index", xs, T("agg", "std::ops::RangeFrom", "RangeFrom", (one,), ("start",)))))
                 if inner and inner[0] == "try" and idx == 0:
                     src = inner[1]
                     if t[2] == "Continue" and isinstance(src, tuple) and src and src[0] == "agg" and len(src) > 3 and src[2] in ("Ok", "Some") and src[3]:
@@ -1705,6 +1721,15 @@ class Walker:
             names, discrs = ENUMS.get(atom[2], ((), ()))
             place = atom[1]
             a2 = T("variantof", place)
+            sp = _split_call(place)
+            if sp is not None:
+                # split_last()/split_first() is None exactly when the slice is empty: the same atom as `xs.len() == 0`
+                em = T("empty", sp[1])
+                for v, b in targets:
+                    edges.append((em, v == 0, b, ("eq", v)))
+                if len(targets) == 1 and not self._is_unreachable(other):
+                    edges.append((em, targets[0][0] != 0, other, ("other", (targets[0][0],))))
+                return edges
 
             def nm(v):
                 if discrs:
